@@ -56,6 +56,57 @@ def tla_json(g, gid=None):
         'id': gid, 'nnt': nnt, 'nt': nt, 'root': ntid[g.root], 'rules': rules, 'used': [1] * len(rules),
         'tprec': [g.tprec.get(t, 0) for t in g.ts], 'tassoc': [g.tassoc.get(t, 0) for t in g.ts],
         'tbytes': [ord(t) for t in g.ts], 'tnames': tn, 'ntnames': names_nt, 'ruletext': texts,
-        'lex': 'chars', 'obsT': True, 'obsC': True, 'alpha': [ord(t) for t in g.ts],
+        'lex': 'chars', 'lexterms': [], 'obsT': True, 'obsC': True, 'alpha': [ord(t) for t in g.ts],
         'uterms': list(range(nt)),
     }
+
+
+# ---------------------------------------------------------------- token-list grammars over arbitrary term sets (C04)
+def carr(name, bs):
+    return 'constexpr char %s[] = {%s};' % (name, ', '.join(['char(%d)' % (b if b < 128 else b - 256) for b in bs] + ['char(0)']))
+
+
+def lex_names(terms):
+    out = []
+    for t in terms:
+        if t[0] == 'C':
+            b = t[1]
+            out.append(chr(b) if 32 < b < 127 else '\\x%02X' % b)
+        elif t[0] == 'S':
+            out.append(bytes(t[1]).decode('latin-1'))
+        else:
+            out.append('r_' + bytes(t[1]).decode('latin-1'))
+    return out
+
+
+def lex_tu(gid, terms):
+    """L -> <empty> | L t_i  for every term: accepts every token sequence; every term and rule is observed."""
+    o = ['#include "rt.hpp"', 'using namespace ctpg;', 'using vh::Node;', 'namespace G {', 'nterm<Node> n0("N0");']
+    for i, t in enumerate(terms):
+        if t[0] == 'C':
+            o.append('auto t%d = typed_term(char_term(%s), vh::TermF{%d});' % (i, cchar(t[1]), i))
+        elif t[0] == 'S':
+            o.append(carr('d%d' % i, t[1]))
+            o.append('auto t%d = typed_term(string_term(d%d), vh::TermF{%d});' % (i, i, i))
+        else:
+            o.append(carr('d%d' % i, t[1]))
+            o.append('auto t%d = typed_term(regex_term<d%d>(0), vh::TermF{%d});' % (i, i, i))
+    rl = ['        n0() >= vh::RuleF{0}'] + ['        n0(n0, t%d) >= vh::RuleF{%d}' % (i, i + 1) for i in range(len(terms))]
+    o.append('auto make() { return new parser(n0,')
+    o.append('    terms(%s),' % ', '.join('t%d' % i for i in range(len(terms))))
+    o.append('    nterms(n0),')
+    o.append('    rules(\n%s\n    )); }' % ',\n'.join(rl))
+    o.append('}')
+    o.append('int main(int argc, char** argv) { return vh::gen_main([] { return G::make(); }, "%s", argc, argv); }' % gid)
+    return '\n'.join(o) + '\n'
+
+
+def lex_tla_json(gid, terms):
+    nt = len(terms)
+    tn = lex_names(terms) + ['<eof>', '<error_recovery_token>']
+    rules = [{'l': 0, 'r': [], 'prec': 0}] + [{'l': 0, 'r': [0, TB + i], 'prec': 0} for i in range(nt)]
+    texts = ['N0 <- '] + ['N0 <- N0 ' + tn[i] for i in range(nt)] + ['## <- N0']
+    return {'id': gid, 'nnt': 1, 'nt': nt, 'root': 0, 'rules': rules, 'used': [1] * len(rules),
+            'tprec': [0] * nt, 'tassoc': [0] * nt, 'tbytes': [0] * nt, 'tnames': tn, 'ntnames': ['N0', '##'], 'ruletext': texts,
+            'lex': 'ref', 'lexterms': [{'kind': t[0], 'data': ([t[1]] if t[0] == 'C' else list(t[1]))} for t in terms],
+            'obsT': True, 'obsC': True, 'alpha': [], 'uterms': list(range(nt))}
